@@ -12,6 +12,7 @@ B (spec -> code): PlaneHist.tla, a model of one plane's state under OPD updates,
    observation (propagated field) must be the one of the plane's EFFECTIVE state, whatever the history.
 """
 import hashlib
+import pickle
 import json
 import os
 import random
@@ -399,6 +400,25 @@ def run(ctx):
     nfwd = len(events)
     events += run_sessions_fresh_process(ctx, nsess, ncalls, tid0=nsess)
     ctx.extra['events_forward'] = nfwd
+    # a copy of a source is a source of its own - also a shallow copy, also of a source defined by a law (Blackbody.vegamag): what it
+    # returns depends on ITS attributes now, not on those of the object it was copied from
+    import copy as _copy
+    R_ = lentil.radiometry
+    qw = np.array([450., 550., 650.])
+    for how in ('copy.copy', 'copy.deepcopy', 'Spectrum.copy', 'pickle'):
+        star = R_.Blackbody.vegamag(np.arange(400., 701., 10.), 5000, mag=3, band='V')
+        other = {'copy.copy': _copy.copy, 'copy.deepcopy': _copy.deepcopy, 'Spectrum.copy': lambda o: o.copy(),
+                 'pickle': lambda o: pickle.loads(pickle.dumps(o))}[how](star)
+        ctx.case(('copied-law-source', how))
+        before = np.array(other.sample(qw), dtype=float)
+        star.mag = 8
+        after = np.array(other.sample(qw), dtype=float)
+        other.mag = 5
+        own = np.array(other.sample(qw), dtype=float)
+        ref5 = np.array(R_.Blackbody.vegamag(np.arange(400., 701., 10.), 5000, mag=5, band='V').sample(qw), dtype=float)
+        if not (np.allclose(after, before, rtol=1e-12) and np.allclose(own, ref5, rtol=1e-12)):
+            ctx.violation({'clause': 'Memo', 'f': 'sample-of-a-copied-source', 'copied_with': how},
+                          {'changed_by_the_original': not np.allclose(after, before, rtol=1e-12), 'ignores_its_own_attributes': not np.allclose(own, ref5, rtol=1e-12)}, case=None)
     ctx.extra['events_reverse_session_order_fresh_process'] = len(events) - nfwd
     verdict = validate(ctx, events)
     report_bad(ctx, events, verdict)
